@@ -121,7 +121,9 @@ def build_coq():
 def build_driver():
     os.makedirs(OCAML_BUILD, exist_ok=True)
     srcs = [os.path.join(COQ, "extracted", "model.mli"), os.path.join(COQ, "extracted", "model.ml")]
-    order = ["util.ml"] + sorted(f for f in os.listdir(OCAML_SRC) if f.endswith("_suite.ml")) + ["driver.ml"]
+    first = ["util.ml", "plan_suite.ml", "exec_suite.ml"]
+    order = [f for f in first if os.path.exists(os.path.join(OCAML_SRC, f))] + \
+        sorted(f for f in os.listdir(OCAML_SRC) if f.endswith("_suite.ml") and f not in first) + ["driver.ml"]
     srcs += [os.path.join(OCAML_SRC, f) for f in order]
     for s in srcs:
         if not os.path.exists(s):
